@@ -1175,6 +1175,7 @@ ROUTING_FORMS = [
     ("literal_suffix", [("table_name", "{tbl=projects/*/tables/*}/rows")]),
     ("whole_dstar_tail", [("name", "{database=projects/*/databases/*}/documents/*/**")]),
 ]
+ROUTING_FORMS_FIXED = [("empty_annotation", [])]
 IMPLICIT_FORMS = [
     ("one", {"get": "/v1/{name=things/*}"}, None),
     ("two", {"get": "/v1/{parent=projects/*}/things/{thing_id}"}, None),
@@ -1229,6 +1230,10 @@ def routing_api(rng, name):
     # explicit routing wins over the HTTP rule
     s.rpc("Both", P + ".Req", P + ".Reply", http={"get": "/v1/{name=things/*}"}, routing=[("app_profile_id", "")])
     s.rpc("NoHeader", P + ".Req", P + ".Reply")
+    # AIP-4222: an empty annotation is acceptable and means that no routing header is sent, although the HTTP rule has variables
+    s.rpc("Disabled", P + ".Req", P + ".Reply", http={"get": "/v1/{name=things/*}/parts/{table_name}"}, routing=[])
+    api.info.setdefault("explicit", {})["Disabled"] = "empty_annotation"
+    tags.add("routing:empty_annotation")
     api.options = ["transport=grpc+rest", "autogen-snippets=false"]
     api.info.update(pkg=pkg, version=ver, ns=["vp"], name=name, host=f"{name}.googleapis.com")
     return api
